@@ -67,6 +67,20 @@ func runOne(ctx context.Context, b backend, file string, timeoutS int) (string, 
 // solve races the back ends on one query text. wantAll: wait for all back ends
 // (thorough cross-check) instead of first definite answer.
 func solve(dir, name, text string, timeoutS int, only []string) solveResult {
+	if len(only) == 0 && timeoutS > 3 {
+		// stage 1: the usually fastest back end alone on a short budget; stage 2: race all of them
+		r := solveWith(dir, name, text, 3, []string{"z3-5.1.0"})
+		if r.status == "unsat" || r.status == "sat" {
+			return r
+		}
+		r2 := solveWith(dir, name, text, timeoutS, nil)
+		r2.timeS += r.timeS
+		return r2
+	}
+	return solveWith(dir, name, text, timeoutS, only)
+}
+
+func solveWith(dir, name, text string, timeoutS int, only []string) solveResult {
 	file := filepath.Join(dir, sanitizeFile(name)+".smt2")
 	if err := os.WriteFile(file, []byte(text), 0644); err != nil {
 		return solveResult{status: "error", output: err.Error()}
